@@ -303,4 +303,27 @@ def simfs_fidelity(args) -> int:
         os.chdir(old)
         shutil.rmtree(root, ignore_errors=True)
     print(f"simfs fidelity: {n} questions on {len(paths)} path spellings, {bad} mismatches")
+    # the RNG seam on the arguments where the real functions refuse: same exception class, same acceptance
+    import random
+    from . import sched
+    sched.set_current(sched.Sched([], "first", 0))
+    rn = 0
+    for name, sim_f, real_f, argsets in (
+            ("choice", sched.sim_choice, random.choice, ([[]], [()], [{1, 2}], [[5]], ["ab"], [{}], [None])),
+            ("randint", sched.sim_randint, random.randint, ([3, 2], [2, 2], [0, -1], [-2, -1], [1, 5])),
+            ("shuffle", sched.sim_shuffle, random.shuffle, ([[]], [[1]], [(1, 2)], [{1, 2}], ["ab"]))):
+        for a in argsets:
+            def outcome(f):
+                try:
+                    f(*[list(x) if isinstance(x, list) else x for x in a])
+                    return "ok"
+                except Exception as e:  # noqa
+                    return type(e).__name__
+            o_sim, o_real = outcome(sim_f), outcome(real_f)
+            rn += 1
+            if o_sim != o_real:
+                bad += 1
+                print(f"RNG-SEAM-MISMATCH {name}{tuple(a)!r}: simulated {o_sim} real {o_real}")
+    sched.set_current(None)
+    print(f"rng seam fidelity: {rn} edge calls, mismatches included above")
     return 0 if bad == 0 else 2
